@@ -91,6 +91,17 @@ def cross_execute(contract, args, kwargs):
         except (Unsupported, SpecError) as e:
             return "skipped: %s" % str(e)[:80]
         except Exception as e:
+            # the proxies are only understood inside the patched module(s): an exception raised while executing an
+            # UNPATCHED verde module (a real estimator passed as an argument calls into its own module with real
+            # numpy) says nothing about the model - skipped, not a disagreement
+            patched = {d.get("__name__") for d, _n, _o, _m in P.saved if isinstance(d, dict)}
+            tb, mods = e.__traceback__, []
+            while tb is not None:
+                mods.append(tb.tb_frame.f_globals.get("__name__", ""))
+                tb = tb.tb_next
+            outside = [m for m in mods if m.startswith("verde") and m not in patched]
+            if outside and native[0] == "return":
+                return "skipped: proxy execution left the patched module (%s)" % outside[-1]
             proxy = ("raise", type(e).__name__)
     finally:
         P.restore()
